@@ -41,6 +41,7 @@ type csCfg struct {
 	Busy     bool `json:"busy"`
 	TLS      bool `json:"tls"`
 	NoNorm   bool `json:"nonorm"`
+	Scan     bool `json:"scan"`
 }
 
 type csResp struct {
@@ -77,9 +78,14 @@ type csConn struct {
 	// connection over - fails
 	// (switched on by the handler of a "hijackfail" request)
 	failHandover atomic.Bool
+	// onHandover runs inside that same call, i.e. in the middle of a hijack hand-over
+	onHandover atomic.Pointer[func()]
 }
 
 func (c *csConn) SetDeadline(t time.Time) error {
+	if f := c.onHandover.Load(); f != nil && t.IsZero() {
+		(*f)()
+	}
 	if c.failHandover.Load() && t.IsZero() {
 		return errors.New("verif: deadline reset refused")
 	}
@@ -487,6 +493,14 @@ func csRunScaled(b *csBeh, scale int) *csObs {
 		// never even handshakes); handshake bytes are not request bytes
 		cli = tls.Client(cli, &tls.Config{InsecureSkipVerify: true}) //nolint:gosec
 	}
+	if b.Cfg.Scan {
+		// Shutdown's scan for idle connections (closeIdleConns) runs in the middle of every hijack
+		// hand-over on this connection: a connection that is being handed over is not idle
+		if sc := srvConn.Load(); sc != nil {
+			f := func() { s.closeIdleConns() }
+			sc.onHandover.Store(&f)
+		}
+	}
 	cr := &csCountReader{r: cli}
 	br := bufio.NewReader(cr)
 	idx := 0
@@ -824,6 +838,9 @@ func csCfgKey(c csCfg) string {
 	s := fmt.Sprintf("dk=%v maxReqs=%d rmu=%v serve=%v keepHij=%v perIP=%v busy=%v tls=%v", c.Dk, c.MaxReqs, c.Rmu, c.ViaServe, c.KeepHij, c.PerIP, c.Busy, c.TLS)
 	if c.NoNorm {
 		s += " nonorm=true"
+	}
+	if c.Scan {
+		s += " scan=true"
 	}
 	return s
 }
